@@ -18,7 +18,7 @@
 CONSTANTS
   Mode = "@@MODE@@"
   Procs = {@@PROCS@@}
-  HasNX = @@HASNX@@
+  HasNX = "@@HASNX@@"
   NCands = @@NCANDS@@
   MaxAttempts = @@MAXATT@@
   MaxCalls = @@MAXCALLS@@
@@ -29,6 +29,8 @@ CONSTANTS
   TTLTicks = 3
   MaxTicks = @@MAXTICKS@@
   Faults = {@@FAULTS@@}
+  MaxRenewFails = @@MAXRF@@
+  WithLapse = @@LAPSE@@
   Emit = @@EMIT@@
 INIT Init
 NEXT Next
